@@ -211,8 +211,9 @@ let () =
                obump "C11.restore";
                if k = 0 then begin
                  x11_class :=
-                   (if kf1_C11 orig.vterm then "KF-C11-1" else if kf2_C11 orig.vterm then "KF-C11-2"
-                    else if kf3_C11 orig.vterm then "KF-C11-3" else "");
+                   (* the classes as narrowed / completed by Proofs/C11More.v: outside them the restore is proved exact *)
+                   (if kf1_C11_narrow orig.vterm then "KF-C11-1" else if kf2_C11 orig.vterm then "KF-C11-2"
+                    else if kf3_C11 orig.vterm || kf3b_C11 orig.vterm then "KF-C11-3" else "");
                  if orig.vterm <> (vt_new orig.vterm.cols orig.vterm.rows orig.vterm.sb_limit).vterm then incr nontrivial;
                  (* the model's dump must be the implementation's dump: checked in trace mode (QD) *)
                end;
